@@ -89,6 +89,29 @@ fn main() {
                 let spans: Vec<String> = toks.iter().map(|t| format!("{}..{}{}", t.location.span.start, t.location.span.end, if t.result.is_err() { "!" } else { "" })).collect();
                 format!("chars={} tokens={} maxend={} out_of_source={} spans={}", nchars, toks.len(), maxend, (maxend > nchars) as u8, spans.join("|"))
             }
+            // first-generation lexer: every token with span, line and payload (C09/C14: exact tokens, values and spans)
+            "alphatok" => {
+                use penne::alpha::lexer::Token;
+                let src = String::from_utf8(bytes).unwrap();
+                let toks = penne::alpha::lexer::lex(&src, "replay.pn");
+                let items: Vec<String> = toks.iter().map(|t| {
+                    let d = match &t.result {
+                        Ok(Token::StringLiteral { bytes }) => format!("str:{}", bytes.iter().map(|b| format!("{:02x}", b)).collect::<String>()),
+                        Ok(Token::CharLiteral(b)) => format!("chr:{:02x}", b),
+                        Ok(Token::NakedDecimal(v)) => format!("dec:{}", v),
+                        Ok(Token::BitInteger(v)) => format!("bit:{}", v),
+                        Ok(Token::SuffixedInteger { value, suffix_type }) => format!("suf:{}:{:?}", value, suffix_type),
+                        Ok(Token::Identifier(s)) => format!("id:{}", s),
+                        Ok(Token::Builtin(s)) => format!("bi:{}", s),
+                        Ok(Token::Bool(b)) => format!("bool:{}", b),
+                        Ok(Token::Type(t)) => format!("ty:{:?}", t),
+                        Ok(other) => format!("{:?}", other),
+                        Err(e) => format!("err:{:?}", e),
+                    };
+                    format!("{}-{}-{}-{}", t.location.span.start, t.location.span.end, t.location.line_number, d.replace(' ', ""))
+                }).collect();
+                format!("n={} toks={}", toks.len(), items.join("|"))
+            }
             // C15: delta front end totality
             "delta" => {
                 let tokens = penne::delta::lexer::lex(&bytes, "replay.pn");
